@@ -364,10 +364,11 @@ def _try_connect(sock):
 
 
 def _after_link_loss(sim, plan, ep, peer, L, what):
-    """R1: the close sequence completes: NOT_CONNECTED and one disconnected event per connection."""
-    ok = sim.wait_until(lambda: ep.state == "NOT_CONNECTED" and ep.disconnected_n == ep.connected_n, L)
+    """R1: the close sequence completes: NOT_CONNECTED and a disconnected event for every connected event (the
+    connected event of a connection may still be outstanding when its connect/accept thread is stalled: >=)."""
+    ok = sim.wait_until(lambda: ep.state == "NOT_CONNECTED" and ep.disconnected_n >= ep.connected_n, L)
     if not ok:
-        if ep.disconnected_n == ep.connected_n:
+        if ep.disconnected_n >= ep.connected_n:
             # the close sequence ran to its end (disconnected event fired) but the session state is wrong
             sim.violation(
                 "C09.R1",
@@ -436,7 +437,11 @@ def _verify_session(sim, plan, ep, peer, L):
     if ep.active:
         if not sim.wait_until(lambda: peer.frames_of(rc.SELECT_REQ), plan["t6"] + 1):
             sim.violation("C09.R3", "no Select.req on the new connection", sig="C09.R3|no-select-req-2")
-        peer.send(rc.control(rc.SELECT_RSP, peer.frames_of(rc.SELECT_REQ)[0].system))
+        # a peer answers every Select.req it gets (a select thread of the previous connection that was descheduled for
+        # a while sends its request on this connection as well)
+        for fr in peer.frames_of(rc.SELECT_REQ):
+            peer.send(rc.control(rc.SELECT_RSP, fr.system))
+        peer.auto_select = True
     else:
         peer.send(rc.control(rc.SELECT_REQ, 0x51))
         sim.wait_until(lambda: peer.frames_of(rc.SELECT_RSP, 0x51) or peer.eof is not None, plan["t6"] + 1)
@@ -470,7 +475,7 @@ def _final_disable(sim, plan, ep, L):
     if not sim.wait_until(lambda: call["done"], L):
         sim.violation("C09.R2", f"final disable() did not return within {L} virtual s",
                       sig=_hang_sig(sim, "C09.R2", "final-disable"))
-    ok = sim.wait_until(lambda: ep.state == "NOT_CONNECTED" and ep.disconnected_n == ep.connected_n, 5)
+    ok = sim.wait_until(lambda: ep.state == "NOT_CONNECTED" and ep.disconnected_n >= ep.connected_n, 5)
     if not ok:
         sim.violation("C09.R1", f"after the final disable(): state={ep.state} connected={ep.connected_n} "
                       f"disconnected={ep.disconnected_n}", sig="C09.R1|final-state")
